@@ -88,6 +88,8 @@ def _in_test(const: ast.AST, root: ast.AST) -> bool:
 
 
 def run(repo: Repo, rep: Report, tier: str) -> None:
+    from sa.report import guarded as _guarded
+
     pp = repo.func("visit.endpoint.processors.parameter_processor:EndpointParameterProcessor.process_parameters")
     ua = repo.module(f"{GEN}.url_args_generator")
     rg = repo.module(f"{GEN}.request_generator")
@@ -203,8 +205,8 @@ def run(repo: Repo, rep: Report, tier: str) -> None:
                       "location): e.g. a path-level header `version` disappears when the operation declares a query `version`", po.loc())
     reservation_rule(pp, rep, "R4.4")
 
-    rule_path_template_verbatim(repo, rep, "R4.12")
-    rule_body_argument_selects_branch(repo, rep, "R4.13")
+    _guarded(rep, rule_path_template_verbatim, repo, rep, "R4.12")
+    _guarded(rep, rule_body_argument_selects_branch, repo, rep, "R4.13")
     # ---------------------------------------------------------------- R4.6 one sanitizer
     sites = {
         f"{ua.relpath}:_build_url_with_path_vars": ua.classes["EndpointUrlArgsGenerator"].methods.get("_build_url_with_path_vars"),
@@ -237,15 +239,15 @@ def run(repo: Repo, rep: Report, tier: str) -> None:
     _reuse4(repo, rep, "c16", {"R16.2": "R4.10"}, only=lambda subj: "visited bookkeeping" in subj)
     # R4.11: the transport forwards every caller kwarg except headers unchanged (an empty list / dict body is still a body)
     _reuse4(repo, rep, "c17", {"R17.3": "R4.11"})
-    rule_primary_content_type_is_declared(repo, rep, "R4.22")
+    _guarded(rep, rule_primary_content_type_is_declared, repo, rep, "R4.22")
     # R4.21: one awaited call issues exactly one request - the bundled transport has one send site, outside loops / handlers   [= R6.13]
     _reuse4(repo, rep, "c06", {"R6.13": "R4.21"})
-    rule_array_elements_kept(repo, rep, "R4.14")
-    rule_enum_before_primitive_shortcut(repo, rep, "R4.16")
-    rule_locals_do_not_shadow_arguments(repo, rep, "R4.17")
-    rule_raw_body_has_content_type(repo, rep, "R4.18")
-    rule_header_values_are_text(repo, rep, "R4.19")
-    rule_path_arguments_are_encoded(repo, rep, "R4.20")
+    _guarded(rep, rule_array_elements_kept, repo, rep, "R4.14")
+    _guarded(rep, rule_enum_before_primitive_shortcut, repo, rep, "R4.16")
+    _guarded(rep, rule_locals_do_not_shadow_arguments, repo, rep, "R4.17")
+    _guarded(rep, rule_raw_body_has_content_type, repo, rep, "R4.18")
+    _guarded(rep, rule_header_values_are_text, repo, rep, "R4.19")
+    _guarded(rep, rule_path_arguments_are_encoded, repo, rep, "R4.20")
     # R4.15: the unstructure hooks (wire-key renaming) are registered for the type of *every* field of a body model, private storage of the
     # generated map wrappers included                                                                                   [= R16.7]
     from rules import _converter as _cv415
